@@ -6,6 +6,10 @@ import (
 	"google.golang.org/protobuf/types/known/fieldmaskpb"
 )
 
+// RemovePrefix returns the paths of mask that lie below prefix, with the prefix (and a wildcard segment
+// directly below it) removed: for prefix "a", "a.b" becomes "b" and "a.*.b" becomes "b"; "a" itself, "a.*" and
+// paths outside prefix are dropped. It returns nil - no mask - when mask is nil or no path remains.
+// The mask passed in is not modified.
 func RemovePrefix(prefix string, mask *fieldmaskpb.FieldMask) *fieldmaskpb.FieldMask {
 	if mask == nil {
 		return nil
@@ -16,18 +20,18 @@ func RemovePrefix(prefix string, mask *fieldmaskpb.FieldMask) *fieldmaskpb.Field
 		case path == prefix:
 			continue // skip this one
 		case strings.HasPrefix(path, prefix+"."):
-			path = path[7:]
+			path = path[len(prefix)+1:]
 			switch {
 			case path == "*":
 				continue
 			case strings.HasPrefix(path, "*."):
 				path = path[2:]
 			}
-			out.Paths = append(mask.Paths, path)
+			out.Paths = append(out.Paths, path)
 		}
 	}
 
-	if len(mask.Paths) == 0 {
+	if len(out.Paths) == 0 {
 		return nil
 	}
 	return out
